@@ -272,6 +272,21 @@ def helper_summaries(ctx, rid, names, mode_for_plain, doc=None):
             kinds = [ev[3] for ev in la.acquire_events]
             want = "try" if nm.endswith("handle") else "timed"
             ok3 = bool(kinds) and all(k == want for k in kinds)
+            if not ok3 and want == "timed" and kinds and all(k in ("timed", "try") for k in kinds):
+                # a mutex type without timed operations can be polled: try-acquisitions inside a loop that gives up when a
+                # clock has passed the deadline wait as long as was asked for and never longer
+                def polled(ev):
+                    pos = ev[0]
+                    for _h, body in f.loops():
+                        if pos[0] in body:
+                            for b in body:
+                                for e_ in f.blocks[b].elems:
+                                    if e_["k"] == "S":
+                                        x = f.stmts[e_["s"]]
+                                        if x["k"] == "CallExpr" and (x.get("callee") or {}).get("name") == "now":
+                                            return True
+                    return False
+                ok3 = all(ev[3] == "timed" or polled(ev) for ev in la.acquire_events)
             ctx.ob(rid, ok3, site, "%s: the lock is taken with the %s constructor only (never blocks beyond the given time)"
                    % (nm, "try_to_lock" if want == "try" else "duration/time-point"),
                    "" if ok3 else "acquisition kinds: %s" % kinds, fn=f.label, inst=f.qname)
